@@ -2140,11 +2140,17 @@ class ParameterModelMapper(
                     f'The model parameter "{model_param_names[midx]}" is '
                     f'already defined for model "{self._models[midx].name}"!')
 
+        # Create the new column of the model parameter name matrix before the
+        # parameter is added to the global parameter set, so that a
+        # model_param_names sequence of wrong length does not leave a global
+        # parameter behind that has no column.
+        entry = np.where(mask, model_param_names, None)
+        model_param_names_matrix = np.hstack(
+            (self._model_param_names, entry[np.newaxis, :].T))
+
         self._global_paramset.add_param(param)
 
-        entry = np.where(mask, model_param_names, None)
-        self._model_param_names = np.hstack(
-            (self._model_param_names, entry[np.newaxis, :].T))
+        self._model_param_names = model_param_names_matrix
 
         return self
 
